@@ -268,7 +268,7 @@ class Interp:
                 spec = spec[:-1]
             kinds = frozenset(spec)
             # property with a getter in the family: apply its summary
-            if fam.self_kind in v.kinds:
+            if fam.self_kind in v.kinds and attr not in getattr(fam, "memo_properties", {}):
                 got = self.engine.property_getter(self.owner, attr)
                 if got is not None:
                     return self.apply_summary(got, v, [], {}, node, f".{attr}")
